@@ -330,6 +330,13 @@ def _roundtrip_archive(chk, src):
         ops = {eps[0]: operator("A", True), eps[1]: operator("B", False), eps[2]: operator("C", True)}
         for ep, op in ops.items():
             pe.apply(_bound(pe, eko, ekoc.methods["__setitem__"]), [ep, op], {})
+        # an in-place change of a looked-up operator, saved the documented way (assigning the same object again): what is read back
+        # later must be the changed arrays
+        g = pe.apply(_bound(pe, eko, fget), [eps[0]], {})
+        g.attrs["operator"][0, 0, 0, 0] = dag.sym("changed_in_place")
+        g.attrs["error"][1, 1, 1, 1] = dag.sym("changed_in_place_error")
+        pe.apply(_bound(pe, eko, ekoc.methods["__setitem__"]), [eps[0], g], {})
+        ops[eps[0]] = g
         # the metadata writer
         pe.apply(_bound(pe, eko.attrs["metadata"], mdc.methods["update"]), [], {})
         mfiles = [c for p_, c in fs.files.items() if p_.startswith("/work/") and "/" not in p_[len("/work/"):] and isinstance(c, tuple) and c[0] == "yaml"]
